@@ -74,6 +74,14 @@ def operator_exprs(rng, tier):
     for a in vals:
         out.append("((x)=>[x++,x])(%s)" % a)
         out.append("((x)=>[--x,x])(%s)" % a)
+        out.append("((x)=>[x--,x])(%s)" % a)
+        out.append("((x)=>[++x,x])(%s)" % a)
+        # the same on property, computed-property and element targets (the value of the expression AND the stored value)
+        for form in ("o.k++", "o.k--", "++o.k", "--o.k", "o[p]++", "--o[p]", "o['k']--", "++o[(p)]"):
+            out.append("((o,p)=>[%s,o.k])({k:%s},'k')" % (form, a))
+        out.append("((a)=>[a[0]++,a[0]--,a])([%s])" % a)
+        opm = rng.choice(["+", "-", "*", "%", "**", "&", "|", ">>>", "&&", "||", "??"])
+        out.append("((o,p)=>[o.k %s= (%s),o[p] %s= (%s),o.k])({k:%s},'k')" % (opm, rng.choice(vals), opm, rng.choice(vals), a))
         for op in ["+", "-", "*", "/", "%", "**", "&", "|", "^", "<<", ">>", ">>>", "&&", "||", "??"]:
             b = rng.choice(vals)
             out.append("((x)=>[x %s= (%s),x])(%s)" % (op, b, a))
